@@ -84,11 +84,12 @@ CHECKS = {
             "None iff the language is infinite (pumping), Empty iff empty; cardinality = number of accepted words / "
             "InfiniteLanguageException iff infinite / 0 if empty; iteration = prefix of the (length, lexicographic) listing, "
             "complete for finite languages, nothing for the empty language; random_word returns an accepted word of length k "
-            "for every admissible draw vector, ValueError iff there is no such word. PARTIAL: (a) iteration of an infinite "
-            "language - the model's level budget is not proved sufficient (C13_iter_order_complete_partial allows an "
-            "out-of-fuel answer there; the harness treats it as a disagreement); (b) uniformity of random_word - proved as the "
-            "per-step interval lemma plus the telescoping product identity (C13_random_word_uniform_partial); the count of whole "
-            "draw vectors (C13_random_word_uniform_statement) is not formalised, it is enumerated by the harness instead.",
+            "for every admissible draw vector, ValueError iff there is no such word. Iteration of an infinite language: the model's "
+            "level budget n*(|Q|+1) is proved sufficient (every window of |Q| consecutive lengths holds an accepted word: pumping "
+            "down), so C13_iter_order_complete has no out-of-fuel branch. Uniformity of random_word (C13_random_word_uniform): for "
+            "every accepted word w of length k the draw vectors of the box of ranges along w's run that return w are counted "
+            "exactly - the product of cnt(remaining-1, next state) over the steps - and that count times cnt(k, initial) equals "
+            "the size of the box, i.e. every accepted word has mass 1/count (also enumerated by the harness).",
             "Assumes Random.randint is uniform (the model takes the drawn integers as an argument). networkx "
             "(digraph, dag_longest_path_length) is outside the model: maximum_word_length is a specification model. "
             "Demonstrates DESIGN section 8 row 7 on the unchanged tree (iterating an empty language raises).", "7/C13"),
@@ -170,8 +171,11 @@ CHECKS = {
             "element, None iff the set is empty; predecessors are refused iff the language is infinite (isfinite model proved exact, no "
             "other error possible); without max_length the state-count bound loses no word of a finite language. Additionally a mirror model "
             "of the explicit stack machine of DFA.successors (both directions, with the row-8 repair) is proved to generate exactly that "
-            "list whenever it returns (partial correctness, theorems ..._partial; termination within the driver's budget is not proved, "
-            "an Err Fuel answer fails the check). The implementation's output (whole generated list, single-step result, exception "
+            "list (total correctness: for every fuel it returns nothing else, and - by a termination measure over the trie of words of "
+            "length <= max_length, resp. <= |Q| through co-accessibility for a finite language - it does return, without KeyError/"
+            "IndexError, within the budget (words_upto(|alphabet|, hi) + |start| + 1) * (|alphabet| + 2) + 1 the driver uses; "
+            "hypotheses: start over the alphabet, non-empty alphabet, max_length given whenever the language is infinite). "
+            "The implementation's output (whole generated list, single-step result, exception "
             "kind) is compared literally with both models on generated DFAs x keys x starts x windows x directions.",
             "Symbols are numbered by rank under the user's key (injective keys only). Open known findings: start string with a symbol "
             "outside the alphabet (KeyError), empty alphabet (IndexError).", "7/C14"),
